@@ -6,7 +6,7 @@ CONSTANTS
   NP = 2
   Names = {"a", "b"}
   Vals = {1, 2}
-  Acts = {"CreateGroup", "CreateObject", "AddData", "AddToGroup", "Copy", "SetVal", "Rename", "Close", "Open", "SetFlag", "Move"}
+  Acts = {"CreateGroup", "CreateObject", "AddData", "AddToGroup", "Copy", "SetVal", "SetMeta", "Rename", "Close", "Open", "SetFlag", "Move"}
   Deviations = {"CloseKeepsOrphans"}
   MaxDepth = 6
 CONSTRAINT DepthBound
